@@ -162,7 +162,7 @@ func rewriteGo(g *ast.GoStmt, site string) ast.Stmt {
 	siteLit := &ast.BasicLit{Kind: token.STRING, Value: fmt.Sprintf("%q", site)}
 	if fl, ok := call.Fun.(*ast.FuncLit); ok && len(call.Args) == 0 {
 		return &ast.GoStmt{Call: &ast.CallExpr{Fun: ast.NewIdent("verifGoP"), Args: []ast.Expr{
-			&ast.CallExpr{Fun: ast.NewIdent("verifSelf")}, siteLit, fl}}}
+			&ast.CallExpr{Fun: ast.NewIdent("verifSelf")}, &ast.CallExpr{Fun: ast.NewIdent("verifSelfEp")}, siteLit, fl}}}
 	}
 	// evaluate the arguments now, run the call inside the wrapper
 	var stmts []ast.Stmt
@@ -176,7 +176,7 @@ func rewriteGo(g *ast.GoStmt, site string) ast.Stmt {
 	wrapper := &ast.FuncLit{Type: &ast.FuncType{Params: &ast.FieldList{}},
 		Body: &ast.BlockStmt{List: []ast.Stmt{&ast.ExprStmt{X: inner}}}}
 	stmts = append(stmts, &ast.GoStmt{Call: &ast.CallExpr{Fun: ast.NewIdent("verifGoP"), Args: []ast.Expr{
-		&ast.CallExpr{Fun: ast.NewIdent("verifSelf")}, siteLit, wrapper}}})
+		&ast.CallExpr{Fun: ast.NewIdent("verifSelf")}, &ast.CallExpr{Fun: ast.NewIdent("verifSelfEp")}, siteLit, wrapper}}})
 	return &ast.BlockStmt{List: stmts}
 }
 
@@ -283,6 +283,26 @@ func (c *fctx) exprs(n ast.Node) {
 	})
 }
 
+// wrapNextFrame turns `x.NextFrame()` into `verifFrame(x.NextFrame())`: the wrapper records what the
+// packetizer returned (message kind, seqno, error class) in the site-level trace and passes both values on.
+func wrapNextFrame(body *ast.BlockStmt) {
+	ast.Inspect(body, func(n ast.Node) bool {
+		as, ok := n.(*ast.AssignStmt)
+		if !ok || len(as.Rhs) != 1 {
+			return true
+		}
+		call, ok := as.Rhs[0].(*ast.CallExpr)
+		if !ok {
+			return true
+		}
+		if sel, ok := call.Fun.(*ast.SelectorExpr); ok && sel.Sel.Name == "NextFrame" && len(call.Args) == 0 {
+			as.Rhs[0] = &ast.CallExpr{Fun: ast.NewIdent("verifFrame"), Args: []ast.Expr{call}}
+			sites = append(sites, "transport.receiveFramesLoop.frame")
+		}
+		return true
+	})
+}
+
 func recvName(fd *ast.FuncDecl) string {
 	if fd.Recv == nil || len(fd.Recv.List) == 0 {
 		return ""
@@ -348,6 +368,9 @@ func main() {
 			fd, ok := d.(*ast.FuncDecl)
 			if !ok || fd.Body == nil {
 				continue
+			}
+			if recvName(fd)+fd.Name.Name == "transport.receiveFramesLoop" {
+				wrapNextFrame(fd.Body)
 			}
 			c := &fctx{name: recvName(fd) + fd.Name.Name}
 			if (recvName(fd) == "callContainer." && fd.Name.Name != "NewCall") || recvName(fd) == "protocolHandler." {
